@@ -476,3 +476,33 @@ package shwap
 //@ func NewRowNamespaceDataID
 //@   property C18 C09
 //@   ensures err == nil ==> result.RowID.RowIndex == rowIdx && 0 <= rowIdx && rowIdx < edsSize && height != 0
+
+// ---------------------------------------------------------------------------------------------
+// C09: the memory a server reserves before answering is computed from request fields a remote peer
+// controls. For every request that passed Validate and every square of at most 2^16 shares per side,
+// the computation does not overflow and the reservation is the size of the data asked for.
+
+//@ func (EdsID).ResponseSize
+//@   property C09
+//@   overflow
+//@   requires 0 <= edsSize && edsSize <= 65536
+//@   ensures result == (edsSize/2) * (edsSize/2) * 512
+
+//@ func (NamespaceDataID).ResponseSize
+//@   property C09
+//@   overflow
+//@   requires 0 <= edsSize && edsSize <= 65536
+//@   ensures result == (edsSize/2) * (edsSize/2) * 512
+
+//@ func (RowID).ResponseSize
+//@   property C09
+//@   overflow
+//@   requires 0 <= edsSize && edsSize <= 65536
+//@   ensures result == (edsSize/2) * 512
+
+//@ func (RangeNamespaceDataID).ResponseSize
+//@   property C09
+//@   overflow
+//@   requires 0 <= edsSize && edsSize <= 65536
+//@   requires 0 <= rngid.From && rngid.From < rngid.To && rngid.To <= 4294967295
+//@   ensures result == (rngid.To - rngid.From) * 512 && result > 0
